@@ -18,20 +18,22 @@ import resp
 from core import Exn, cstr, cbool, clist
 from saml2_tophat import sigver, saml, samlp, class_name, BINDING_HTTP_POST
 import xmlsec_core
+import c20_hist
 
 CLAIM = {
-    "text": "Coq theorems (Props/C20.v) for an ARBITRARY tool (every theorem quantifies over all tool results: not startable, killed by signal, any stdout/stderr/output-file content, undecodable bytes): success is recognised only by a line that is exactly OK with no OK/FAIL line before it; if no invocation made for the candidate certificates reports success the signature check raises - whatever only_valid_cert and the certificate validation say (C20_verify; the library before fix 0b54cc6b returned normally with only_valid_cert on: C20_verify_before_fix_refuted, C20_verify_before_fix_partial); signing/encryption return only a started, unsignalled run's own non-empty output file, never the input; decrypt_keys returns a real tool output or the unchanged ciphertext. Tie to the code: scripted-Popen correspondence of every backend function and of _check_signature (random tool triples and the complete table catalogue^3 x only_valid_cert x certificate-validation verdict) against the model, and a fault-mode x site x position enumeration through the real SP/IdP/metadata entry points judged by the property.",
+    "text": "Coq theorems (Props/C20.v) for an ARBITRARY tool (every theorem quantifies over all tool results: not startable, killed by signal, any stdout/stderr/output-file content, undecodable bytes): success is recognised only by a line that is exactly OK with no OK/FAIL line before it; if no invocation made for the candidate certificates reports success the signature check raises - whatever only_valid_cert and the certificate validation say (C20_verify; the library before fix 0b54cc6b returned normally with only_valid_cert on: C20_verify_before_fix_refuted, C20_verify_before_fix_partial); signing/encryption return only a started, unsignalled run's own non-empty output file, never the input; decrypt_keys returns a real tool output or the unchanged ciphertext. HISTORIES (Model/MdStoreLoad.v: metadata store = dict key -> source, load = parse into a new source; verify; register; the application catches the exception): a load that raises leaves the store unchanged and a load that must verify without a reported success raises (C20_failed_load_unchanged); by induction over operation lists the failed loads of ANY history are invisible - final store = what the successful operations alone produce, a failed load in the middle leaves no trace (C20_history_failed_loads_invisible); everything the store holds afterwards was there before or was registered by an operation that did not have to verify or whose tool run reported success (C20_history_provenance); register-before-verify is refuted (C20_register_before_verify_refuted). Tie to the code: scripted-Popen correspondence of every backend function and of _check_signature (random tool triples and the complete table catalogue^3 x only_valid_cert x certificate-validation verdict) against the model,, random load/imp histories on one real MetadataStore with a scripted tool against run_history, and a fault-mode x site x position enumeration through the real SP/IdP/metadata entry points judged by the property - including histories on long-lived objects: fault mode (and bad signature / tampered) x load API (load remote cert=, imp old style, imp new style, imp after a good source, imp file) x same key / new key on the store of one long-lived SP with successful refreshes in between (afterwards: same sources, entities, certificates, endpoints; responses signed with the key only the rejected document names are refused), and good / failed / forged / unsigned / good call sequences on long-lived SPs (both signed; either signed), an SP decrypting, and an IdP (session cache, caller's outstanding-query table, identity of the next call).",
     "note": "Trusted: Coq kernel + vm_compute; hand-written model of sigver.py's tool handling tied to the code by the correspondence units; the scripted/stand-in tool (real xmlsec1 is not installed); OS process semantics (exit status, signals) are exercised only through the real-process sample. The step from 'signature check raises / ciphertext unchanged' to 'message rejected / no identity' is carried by the end-to-end fault enumeration (and by the C02 pipeline model), not by a C20 theorem.",
     "technique": "machine-checked proof (Coq, tool universally quantified) + scripted-tool correspondence + fault enumeration on the implementation",
 }
 TRUSTED = [
     "modelled: parse_xmlsec_output, _run_xmlsec, validate_signature, sign_statement, encrypt_assertion, decrypt, decrypt_keys, the certificate loop and final tests of _check_signature (sigver.py, as repaired by 0b54cc6b: not verified => SignatureError whatever only_valid_cert, then certificate validation); str.splitlines is re-implemented in Gallina",
+    "modelled (Model/MdStoreLoad.v): MetadataStore.load('remote') / imp for MetaDataExtern sources and parse_and_check_signature's decision (cert configured and document signed => one verification run); documents are abstract numbers, the harness recognises them in the real store by the entities/certificates/endpoints served",
     "the scripted Popen / stand-in tool (harness/tools/xmlsec_core.py) replaces xmlsec1, which is not installed",
     "the pipeline consequence (failed check => response/request/metadata rejected, undecrypted => no identity) is checked by fault enumeration on the implementation, not proved here",
 ]
 ASSUMPTIONS = ["a positive exit status is ignored by pysaml2 when stderr has an OK line (the statement's 'without reporting success' covers this)"]
 RULE = ("parse_output: exhaustive strings up to length 4 over a 9-symbol alphabet plus catalogue and random longer ones; backend units: "
-        "catalogue x random tool results in sequences on one backend instance (so stale state between runs is visible); e2e: mode x site x position. "
+        "catalogue x random tool results in sequences on one backend instance (so stale state between runs is visible); e2e: mode x site x position; store_history: random histories of 3-9 load/imp operations over 3 keys x 4 documents x cert given or not x random tool result on one store; store_faults / sp_history: complete mode x API x key (x position x SP configuration) enumerations on long-lived objects. "
         "Non-trivial = the tool result is a failure of some kind or contains OK/FAIL text; distinct by content.")
 
 
@@ -507,6 +509,11 @@ def run(ctx):
     unit_parse_output(ctx)
     unit_backend(ctx)
     unit_e2e(ctx)
+    # what a FAILED operation leaves behind (long-lived store / SP / IdP): harness/c20_hist.py
+    c20_hist.unit_store_history(ctx, Scripted, gen_tool, coq_tool, _reports_success, _show_tool)
+    with env.Clock(env.NOW):
+        c20_hist.unit_store_faults(ctx, MODES, ctx_work())
+    c20_hist.unit_sp_history(ctx, MODES, ctx_work())
 
 
 def replay(ctx, payload):
